@@ -152,29 +152,29 @@ def scenarios(tier):
     A = inject.assumptions(("hdlc",))
     out = []
     for cfg in HC.CONFIGS:
-        ks = (2, 1) if q else (3, 2, 1)
-        shapes = SHAPES[:2] if q else SHAPES[:4]
-        fills = [(1, 1, 1)] if q else [(1, 1, 1, 1), (2, 3, 1, 2)]
+        ks = (2, 1) if q else (3, 2)
+        shapes = SHAPES[:2] if q else SHAPES[:3]
+        fills = [(1, 1, 1)] if q else [(1, 1, 1), (2, 3, 1)]
         out.append(Scenario(f"family P payload={ks} {HC.cfg_name(cfg)}", family_p(cfg, ks, shapes, 0, fills, q),
                             bounds={"frames": len(ks), "free_payload_octets": list(ks), "free": "control + payload octets", "address_shapes": [list(s) for s in shapes], "inter_frame_flags": fills,
                                     "splittings": "every single cut + byte-at-a-time", "configuration": HC.cfg_name(cfg)}, domains=("hdlc",), frontier=5, assumptions=A, replay_cap=60))
         out.append(Scenario(f"family P after noise, varied flag fill {HC.cfg_name(cfg)}", family_p(cfg, (1, 1) if q else (2, 1), shapes[:1] if q else shapes[:2], 2 if q else 4, [(2, 3, 1), (3, 1, 2)], q),
                             bounds={"leading_noise": f"{2 if q else 4} free non-flag octets", "frames": 2, "inter_frame_flags": [(2, 3, 1), (3, 1, 2)], "configuration": HC.cfg_name(cfg)}, domains=("hdlc",), frontier=5, assumptions=A, replay_cap=60))
-        hs = [(1, 1)] if q else SHAPES[:4]
+        hs = [(1, 1)] if q else SHAPES[:2]
         out.append(Scenario(f"family H (all header fields free) {HC.cfg_name(cfg)}", family_h(cfg, hs, 0, q),
                             bounds={"free": "format type, S bit, every address octet (low bits as the standard requires), control", "payload": "empty (header-only frame)", "address_shapes": [list(s) for s in hs],
                                     "splittings": "every single cut + byte-at-a-time", "configuration": HC.cfg_name(cfg)}, domains=("hdlc",), frontier=5, assumptions=A, replay_cap=60,
                             engine_opts={"timeout_ms": 60000}))
-        if q and cfg == (True, False):
-            out.append(Scenario(f"max-size frame 2047 octets, flag/escape-dense payload, free control octet {HC.cfg_name(cfg)}", maxsize(cfg, 2047, ()),
-                                bounds={"frame_octets": 2047, "payload": "concrete, every 5th octet 7E and every 7th 7D (stuffed on the wire: > 2047 wire octets)", "free": "control octet", "configuration": HC.cfg_name(cfg)},
+        if q and cfg in ((True, False), (False, False)):
+            out.append(Scenario(f"max-size frame 2047 octets, flag/escape-dense payload, free control octet {HC.cfg_name(cfg)}", maxsize(cfg, 2047, (-1,)),
+                                bounds={"frame_octets": 2047, "payload": "concrete, every 5th octet 7E and every 7th 7D (stuffed on the wire: > 2047 wire octets)", "free": "control octet and last payload octet (so that the FCS octets take every value, 7E included)", "configuration": HC.cfg_name(cfg)},
                                 domains=("hdlc",), frontier=3, workers=8, assumptions=A, replay_cap=10, engine_opts={"timeout_ms": 120000}))
         if not q:
-            out.append(Scenario(f"family H + 1 payload octet {HC.cfg_name(cfg)}", family_h(cfg, SHAPES[:2], 1, q), bounds={"free": "all header fields + one payload octet", "configuration": HC.cfg_name(cfg)},
+            out.append(Scenario(f"family H + 1 payload octet {HC.cfg_name(cfg)}", family_h(cfg, SHAPES[:1], 1, q), bounds={"free": "all header fields + one payload octet", "configuration": HC.cfg_name(cfg)},
                                 domains=("hdlc",), frontier=5, assumptions=A, replay_cap=60, engine_opts={"timeout_ms": 60000}))
             for total in (2046, 2047):
-                out.append(Scenario(f"max-size frame {total} octets {HC.cfg_name(cfg)}", maxsize(cfg, total, (0, 1000, -1)),
-                                    bounds={"frame_octets": total, "payload": "concrete flag/escape-dense", "free": "control + payload octets first/1000th/last", "configuration": HC.cfg_name(cfg)},
+                out.append(Scenario(f"max-size frame {total} octets {HC.cfg_name(cfg)}", maxsize(cfg, total, (0, -1)),
+                                    bounds={"frame_octets": total, "payload": "concrete flag/escape-dense", "free": "control + first and last payload octet", "configuration": HC.cfg_name(cfg)},
                                     domains=("hdlc",), frontier=3, workers=8, assumptions=A, replay_cap=20, engine_opts={"timeout_ms": 120000}))
     return out
 
